@@ -60,6 +60,10 @@ def summarise(run, obs):
             k = ("place", r["ofile"], r["opkg"], r["exist"], r["cwd"], r["conv2"], tuple(r["decl"]), r["exit"])
             if len([s for s in samples if s.get("kind") == "place"]) < 2:
                 samples.append({k2: r[k2] for k2 in ("kind", "decl", "ofile", "opkg", "exist", "cwd", "conv2", "exit", "created")})
+        elif r["kind"] == "hdr":
+            k = ("hdr", r["tagflag"], r["consflag"], r["exit"], r["out"].get("constraint"))
+            if len([s for s in samples if s.get("kind") == "hdr"]) < 1 and r["consflag"] == "empty":
+                samples.append({"kind": "hdr", "tagflag": r["tagflag"], "consflag": r["consflag"], "constraint_line": r["out"].get("constraint")})
         else:
             k = ("argv", tuple(r["argv"]), r["exit"])
             if len([s for s in samples if s.get("kind") == "argv"]) < 2 and len(r["argv"]) >= 2:
